@@ -188,7 +188,11 @@ func errClass(e string) string {
 	return "EOther"
 }
 
-type oRef struct{ FromTable, From, Col string; IsValue bool; ToTable, To string }
+type oRef struct {
+	FromTable, From, Col string
+	IsValue              bool
+	ToTable, To          string
+}
 
 type tObs struct {
 	Results   []oResult
@@ -273,33 +277,7 @@ func (l *txnLab) runWith(ops []TOp, transact func([]ovsdb.Operation) ([]*ovsdb.O
 			}
 		}()
 		results, committed, commitErr := transact(oops)
-		for i, r := range results {
-			var or oResult
-			switch {
-			case r == nil:
-				or.Kind = "null"
-			case r.Error != "":
-				or.Kind, or.Err, or.Msg = "err", errClass(r.Error), r.Error+": "+r.Details
-			case i < len(ops) && ops[i].Kind == "insert":
-				or.Kind, or.UUID = "uuid", r.UUID.GoUUID
-			case i < len(ops) && ops[i].Kind == "select":
-				or.Kind = "rows"
-				or.Rows = map[string]map[string]val.Val{}
-				for _, row := range r.Rows {
-					u, _ := row["_uuid"].(ovsdb.UUID)
-					m, err := l.db.ReadOvsRow(ops[i].Table, row)
-					if err != nil {
-						or.Kind, or.Err, or.Msg = "err", "EOther", "undecodable select row: "+err.Error()
-					}
-					or.Rows[u.GoUUID] = m
-				}
-			case i < len(ops) && (ops[i].Kind == "update" || ops[i].Kind == "mutate" || ops[i].Kind == "delete"):
-				or.Kind, or.Count = "count", r.Count
-			default:
-				or.Kind = "empty"
-			}
-			ob.Results = append(ob.Results, or)
-		}
+		ob.Results = l.convertResults(ops, results)
 		ob.Committed, ob.CommitErr = committed, commitErr
 	}()
 	st, refs, err := l.state()
@@ -397,4 +375,67 @@ func stateKey(st map[string]map[string]map[string]val.Val, refs []oRef) string {
 	}
 	sort.Strings(parts)
 	return strings.Join(parts, ";") + "|" + fmt.Sprint(refs)
+}
+
+// convertResults classifies the raw operation results of one transaction.
+func (l *txnLab) convertResults(ops []TOp, results []*ovsdb.OperationResult) []oResult {
+	var out []oResult
+	for i, r := range results {
+		var or oResult
+		switch {
+		case r == nil:
+			or.Kind = "null"
+		case r.Error != "":
+			or.Kind, or.Err, or.Msg = "err", errClass(r.Error), r.Error+": "+r.Details
+		case i < len(ops) && ops[i].Kind == "insert":
+			or.Kind, or.UUID = "uuid", r.UUID.GoUUID
+		case i < len(ops) && ops[i].Kind == "select":
+			or.Kind = "rows"
+			or.Rows = map[string]map[string]val.Val{}
+			for _, row := range r.Rows {
+				u, _ := row["_uuid"].(ovsdb.UUID)
+				m, err := l.db.ReadOvsRow(ops[i].Table, row)
+				if err != nil {
+					or.Kind, or.Err, or.Msg = "err", "EOther", "undecodable select row: "+err.Error()
+				}
+				or.Rows[u.GoUUID] = m
+			}
+		case i < len(ops) && (ops[i].Kind == "update" || ops[i].Kind == "mutate" || ops[i].Kind == "delete"):
+			or.Kind, or.Count = "count", r.Count
+		default:
+			or.Kind = "empty"
+		}
+		out = append(out, or)
+	}
+	return out
+}
+
+func coqResults(s *val.Syms, results []oResult) string {
+	var rs []string
+	for _, r := range results {
+		switch r.Kind {
+		case "uuid":
+			rs = append(rs, fmt.Sprintf("OUuid %d%%N", s.ID(r.UUID)))
+		case "rows":
+			var us []string
+			for u := range r.Rows {
+				us = append(us, u)
+			}
+			sort.Strings(us)
+			var rows []string
+			for _, u := range us {
+				rows = append(rows, fmt.Sprintf("(%d%%N, %s)", s.ID(u), dyn.CoqRow(s, r.Rows[u])))
+			}
+			rs = append(rs, "ORows ["+strings.Join(rows, "; ")+"]")
+		case "count":
+			rs = append(rs, fmt.Sprintf("OCount %d%%nat", r.Count))
+		case "empty":
+			rs = append(rs, "OEmpty")
+		case "err":
+			rs = append(rs, "OErr "+r.Err)
+		default:
+			rs = append(rs, "ONull")
+		}
+	}
+	return "[" + strings.Join(rs, "; ") + "]"
 }
